@@ -7,6 +7,7 @@ Strata
          (vf.sched) and seeded random perturbation.  The recorded boundary history
          (begin/end stamps from one counter) must be linearizable w.r.t. the
          reference pipe (sound: only real-time order is assumed).
+  instr  a second sweep of the 2-thread core workloads at INSTRUCTION granularity
   probe  a LINE probe on the source line(s) holding `raise PipeTimeout` reads
          len(self._buffer) in the raising frame, under the pipe's own lock: the exact
          "timeout only if no data was available" clause.
@@ -149,6 +150,7 @@ class Hist:
         self.clock = itertools.count(1)
         self.ops = []
         self.eng = eng
+        self.empty_feeds = 0
 
     def do(self, pipe, role, op):
         k = op[0]
@@ -166,6 +168,8 @@ class Hist:
             if k == "feed":
                 pipe.feed(op[1])
                 res = None
+                if len(op[1]) == 0:
+                    self.empty_feeds += 1
             elif k == "read":
                 res = pipe.read(op[1], op[2])
             elif k == "empty":
@@ -258,7 +262,9 @@ def sequential(ctx, eng, nseq, probe):
             for j in range(nops):
                 state = box["state"]
                 r, fn, rn, t_empty, t_data = script[j]
-                if r < 0.32 and off < 250:
+                if r < 0.04:
+                    op = ("feed", b"")
+                elif r < 0.32 and off < 250:
                     n = min(fn, 256 - off)
                     op = ("feed", pool[off:off + n])
                     off += n
@@ -306,6 +312,7 @@ def sequential(ctx, eng, nseq, probe):
                 p._lock.release()
 
         run = eng.execute([("S", body)], sched.Plan(order=["S"]), on_hang=on_hang)
+        ctx.count("empty_feeds_observed", h.empty_feeds)
         state = box["state"]
         bad = box["bad"]
         if hung:
@@ -367,6 +374,22 @@ def core_workloads():
     add(dict(init=[("feed", A)], threads=[[("feed", B)], [("read", 64, 0.0)], [("empty",)]]))
     add(dict(init=[], threads=[[("feed", A), ("feed", B)], [("feed", C), ("close",)], [("read", 3, None), ("read", 64, None)]]))
     add(dict(init=[("feed", A)], threads=[[("close",)], [("read", 1, EPS), ("read", 64, EPS)], [("feed", B)]]))
+    Z = b""
+    # zero-length feeds: must not make a waiting read return early or raise wrongly
+    add(dict(init=[], threads=[[("feed", Z), ("feed", A)], [("read", 8, EPS)]]))
+    add(dict(init=[], threads=[[("feed", Z), ("feed", A), ("close",)], [("read", 8, None), ("read", 8, None)]]))
+    add(dict(init=[], threads=[[("feed", Z)], [("read", 8, EPS / 3)], [("feed", B)]]))
+    add(dict(init=[("feed", A)], threads=[[("feed", Z)], [("read", 2, 0.0), ("len",)]]))
+    # round 5 (a): read() entered on an empty open pipe while feed()+close() happen during its entry
+    add(dict(init=[], threads=[[("feed", A), ("close",)], [("read", 8, None)]]))
+    add(dict(init=[], threads=[[("feed", A), ("close",)], [("read", 8, 0.0)]]))
+    add(dict(init=[], threads=[[("feed", A), ("close",)], [("read", 2, EPS), ("read", 8, EPS)]]))
+    add(dict(init=[], threads=[[("feed", A)], [("close",)], [("read", 8, None)]]))
+    # round 5 (b): data ALREADY buffered, zero/tiny timeout, while a feeder momentarily holds the lock
+    add(dict(init=[("feed", A)], threads=[[("feed", B)], [("read", 8, 0.0)]]))
+    add(dict(init=[("feed", A)], threads=[[("feed", B)], [("read", 8, 0.0005)]]))
+    add(dict(init=[("feed", A)], threads=[[("feed", B), ("feed", C)], [("read", 2, 0.001), ("read", 64, 0.0)]]))
+    add(dict(init=[("feed", A)], threads=[[("feed", B)], [("read", 1, 0.0)], [("read", 1, 0.0005)]]))
     return W
 
 
@@ -397,7 +420,9 @@ def random_workload(rng):
         prog = []
         for _ in range(rng.choice([1, 2, 2, 3])):
             r = rng.random()
-            if r < (0.6 if ti == closer else 0.3):
+            if r < 0.04:
+                prog.append(("feed", b""))
+            elif r < (0.6 if ti == closer else 0.3):
                 c = chunk()
                 if c:
                     prog.append(("feed", c))
@@ -458,6 +483,16 @@ def run_plan(ctx, eng, probe, wl, plan, stats):
              nontrivial=any(o["k"] in ("read", "empty", "close") for o in h.ops))
     ctx.count("runs_" + plan.kind())
     ctx.count("line_events_traced", len(run.trace))
+    ctx.count("empty_feeds_observed", h.empty_feeds)
+    if plan.kind() == "preempt" and run.park_reached and run.park_at:
+        q = run.park_at[0]
+        has_init_data = any(o[0] == "feed" and o[1] for o in wl["init"])
+        if q in ("BufferedPipe.feed", "BufferedPipe._buffer_frombytes") and has_init_data and any(
+                o["k"] == "read" and o["t"] is not None and o["t"] <= 0.001 for o in h.ops):
+            ctx.count("short_timeout_reads_with_data_buffered_while_feeder_parked")
+        if q == "BufferedPipe.read" and any(o["k"] == "close" for o in h.ops) and any(
+                o["k"] == "feed" and o["role"] != "init" for o in h.ops):
+            ctx.count("reader_parked_in_read_across_feed_and_close")
     if plan.kind() == "preempt":
         ctx.count("preemption_points_enumerated")
         if run.park_reached:
@@ -517,7 +552,7 @@ def run(ctx):
                 return
         sequential(ctx, eng, ctx.pick(1500, 30000), probe)
         t_core = ctx.pick(9, 150)
-        t_end = ctx.pick(16, 380)
+        t_end = ctx.pick(15, 330)
 
         def perturbed(wl, n):
             for _ in range(n):
@@ -540,9 +575,29 @@ def run(ctx):
             perturbed(wl, 6)
             sweep(ctx, eng, probe, wl, stats, t_end + 3)
         ctx.count("engine_line_callbacks", eng.stats["line_events"])
+    # INSTRUCTION granularity: every bytecode of BufferedPipe is a preemption point (splits conditions
+    # written on one source line, e.g. an unlocked `empty and closed` fast path)
+    t_instr = t_end + ctx.pick(4, 60)
+    with sched.Engine(funcs, instr_funcs=funcs) as eng:
+        eng.add_probe(BufferedPipe.read, "raise PipeTimeout", probe)
+        core = [wl for wl in core_workloads() if len(wl["threads"]) == 2]
+        rng.shuffle(core)
+        before = ctx.counters.get("preemption_points_reached", 0)
+        for i, wl in enumerate(core):
+            if not ctx.mine(i):
+                continue
+            if ctx.elapsed() > t_instr:
+                break
+            if sweep(ctx, eng, probe, wl, stats, t_instr + 2):
+                ctx.count("workloads_swept_at_instruction_granularity")
+        ctx.count("instruction_preemption_points_reached", ctx.counters.get("preemption_points_reached", 0) - before)
     ctx.count("distinct_interleavings_this_shard", len(stats.get("iids", ())))
     if "side_hang" in stats:
         ctx.note("side_finding_reader_never_woken", stats["side_hang"])
+    ctx.require("empty_feeds_observed", 500)
+    ctx.require("short_timeout_reads_with_data_buffered_while_feeder_parked", 20)
+    ctx.require("reader_parked_in_read_across_feed_and_close", 100)
+    ctx.require("instruction_preemption_points_reached", 1000)
     ctx.require("raise_site_lines_probed", 2)
     ctx.require("sequential_steps_compared", 5000)
     ctx.require("histories_checked", 800)
